@@ -1,8 +1,9 @@
 /-
-C04 — clauses of the property that the UNCHANGED code violates: each full statement is shown,
-its negation is proved with a concrete schedule (kernel-evaluated), and the schedule is exported
-as a protocol line (`Driver.witnessLines`) that is replayed on the real code on every run.
-The provable parts are the `Props` theorems with their explicit exclusions.
+C04 — what the code did BEFORE the repairs of the fix round (non-vacuity of the repaired
+clauses: each `…_old_code_fails` theorem exhibits, kernel-evaluated, the behaviour the old code
+had and the repaired code — the model in `Model.lean` — provably no longer has), and one
+observation about destructor timing that the property does not forbid.
+The schedules are kept as regression lines in `corpus/C04/fixed-findings.txt`.
 -/
 import CaddyModel.C04.Reach
 
@@ -20,237 +21,110 @@ def noRogueDelete (ls : List Label) : Bool :=
     | .del1 _ none => false
     | _ => true
 
-/-! ### F12 — mixed use of LoadOrNew (failing constructor) and LoadOrStore
+/-! ### old LoadOrStore: the `else` branch after a failed constructor
 
-FULL STATEMENT (false): for every schedule in which every Delete is made by a holder,
-`0 < holders e → destructed e = 0` (`not_destructed_before_own_release` without exclusion (b)).
+Old code (usagepool.go before the fix): a LoadOrStore that had loaded an entry whose LoadOrNew
+constructor then failed wrote its own value into the (already removed) entry, returned
+(nil, true) and counted on the entry.  `gstepOld` is the repaired model with that one branch put
+back.  Repaired: the call starts over (`lsRead` on a failed entry only gives up the entry). -/
 
-A: LoadOrNew(0) inserts its placeholder; B: LoadOrStore(0) loads it and waits; A's constructor
-fails, A removes the placeholder; B takes the `else` branch: it writes its value into the
-orphaned entry and returns (nil, true).  C: LoadOrNew(0) constructs a new live value.  B, which
-believes it holds key 0, calls Delete(0): that decrements C's entry to 0, removes it and
-destructs C's value while C still holds it. -/
+def gstepOld (s : G) : Label → Option G
+  | .lsRead e v =>
+    if e < s.next ∧ 0 < (s.ent e).lsWaiters ∧ (s.ent e).wlocked = false ∧ (s.ent e).err = true then
+      some (updEnt s e fun E =>
+        { E with value := some v, err := false, lsWaiters := E.lsWaiters - 1, holders := E.holders + 1 })
+    else gstep s (.lsRead e v)
+  | l => gstep s l
+
+def runLabelsOld : G → List Label → Option G
+  | s, [] => some s
+  | s, l :: ls => match gstepOld s l with
+    | some s' => runLabelsOld s' ls
+    | none => none
+
+/-- A: LoadOrNew(0) inserts its placeholder; B: LoadOrStore(0) loads it and waits; A's constructor
+    fails, A removes the placeholder; B (old code) adopts the orphaned entry.  C: LoadOrNew(0)
+    constructs a new live value.  B calls Delete(0): that decrements C's entry to 0, removes it
+    and destructs C's value while C still holds it. -/
 def mixedUseRun : List Label :=
   [.lnLookup 0, .lsLookup 0, .ctorErr 0, .lnFailDel 0, .lsRead 0 1,
    .lnLookup 0, .ctorOk 1, .del1 0 (some 0), .del2 1, .del3 1]
 
-theorem mixed_use_full_fails :
-    ∃ ls s e, noRogueDelete ls = true ∧ runLabels G.init ls = some s ∧ e < s.next
-      ∧ 0 < (s.ent e).holders ∧ 0 < (s.ent e).destructed := by
-  have h : (runLabels G.init mixedUseRun).map
-      (fun s => (decide (1 < s.next), (s.ent 1).holders, (s.ent 1).destructed)) = some (true, 1, 1) := by decide
-  obtain ⟨s, hr, hf⟩ := run_witness h
-  refine ⟨mixedUseRun, s, 1, by decide, hr, ?_⟩
-  have h1 : decide (1 < s.next) = true := congrArg (·.1) hf
-  have h2 : (s.ent 1).holders = 1 := congrArg (·.2.1) hf
-  have h3 : (s.ent 1).destructed = 1 := congrArg (·.2.2) hf
-  exact ⟨of_decide_eq_true h1, by omega, by omega⟩
+theorem mixed_use_old_code_fails :
+    (runLabelsOld G.init mixedUseRun).map
+      (fun s => (noRogueDelete mixedUseRun, (s.ent 1).holders, (s.ent 1).destructed)) = some (true, 1, 1) := by
+  decide
 
-/-- the same run: `LoadOrStore` hands its caller a nil value (`lsReadRet = none`) with loaded = true -/
-theorem loadOrStore_returns_nil :
-    ∃ s, runLabels G.init (mixedUseRun.take 4) = some s ∧ gstep s (.lsRead 0 1) ≠ none ∧ lsReadRet s 0 = none := by
-  have h : (runLabels G.init (mixedUseRun.take 4)).map
-      (fun s => ((gstep s (.lsRead 0 1)).isSome, lsReadRet s 0)) = some (true, none) := by decide
-  obtain ⟨s, hr, hf⟩ := run_witness h
-  refine ⟨s, hr, ?_, congrArg (·.2) hf⟩
-  have : (gstep s (.lsRead 0 1)).isSome = true := congrArg (·.1) hf
-  intro hn; rw [hn] at this; cases this
+/-- the same schedule on the repaired code: B's `Delete` is not even enabled as a holder's Delete
+    (B holds nothing — it started over), the schedule is not a run -/
+example : runLabels G.init mixedUseRun = none := by decide
+/-- … and with B starting over (`lsLookup` again: it loads C's pending entry and gets C's value):
+    both hold C's value (number 3), nothing is destructed -/
+example : (runLabels G.init [.lnLookup 0, .lsLookup 0, .ctorErr 0, .lnFailDel 0, .lsRead 0 1,
+      .lnLookup 0, .lsLookup 0, .ctorOk 1, .lsRead 1 2]).map
+    (fun s => ((s.ent 1).holders, (s.ent 1).value, (s.ent 1).destructed, (s.ent 0).deadRefs)) = some (2, some 3, 0, 2) := by
+  decide
 
-/-- it is exactly exclusion (b) that the run needs: its only excluded label is the `lsRead` -/
-example : cleanRun G.init (mixedUseRun.take 4) = true ∧ cleanRun G.init (mixedUseRun.take 5) = false := by decide
+/-! ### old References: the count was read after the pool lock had been released
 
-/-! ### References reads the count after releasing the pool lock
+Old code: `References` fetched the entry under `up.RLock()`, released the lock and only then loaded
+`refs`.  A `Delete` in between made it report (0, true).  Repaired: one region (`Label.refs`),
+the answer is `refsNow` of a single state, which is never `some 0` (`Props.references_report`). -/
+theorem references_old_code_fails :
+    ∃ ls ls' s0 s1 e, cleanRun G.init (ls ++ ls') = true ∧ runLabels G.init ls = some s0 ∧ s0.pool 0 = some e
+      ∧ runLabels s0 ls' = some s1 ∧ (s1.ent e).refs = 0 := by
+  have h0 : (runLabels G.init [.lsLookup 0]).map (fun s => s.pool 0) = some (some 0) := by decide
+  have h1 : (runLabels G.init [.lsLookup 0, .del1 0 (some 0)]).map (fun s => (s.ent 0).refs) = some 0 := by decide
+  obtain ⟨s0, hr0, hp0⟩ := run_witness h0
+  obtain ⟨s1, hr1, hp1⟩ := run_witness h1
+  refine ⟨[.lsLookup 0], [.del1 0 (some 0)], s0, s1, 0, by decide, hr0, hp0, ?_, hp1⟩
+  simp only [runLabels] at hr1 hr0 ⊢
+  cases hg : gstep G.init (.lsLookup 0) with
+  | none => rw [hg] at hr0; cases hr0
+  | some t =>
+    rw [hg] at hr0 hr1
+    cases hr0
+    exact hr1
 
-FULL STATEMENT (false): `References` returns `(n, true)` only with `n ≥ 1` = the number of
-references of the key (`references_partial` without the hypothesis `inPool s e`).
+/-! ### old Range: waited for a placeholder's lock while holding the pool read lock
 
-A: LoadOrStore(0); B: References(0) fetches the entry and releases the pool lock; A: Delete(0)
-brings the count to 0 and removes the entry; B loads the count: `(0, true)` — a key that
-"exists" with zero references, which no atomic execution can report. -/
-def refsStaleRun : List Label := [.lsLookup 0, .refs1 0, .del1 0 (some 0)]
+Old code: `Range` held `up.RLock()` and blocked on `upv.RLock()` of a placeholder under
+construction; if that constructor failed, LoadOrNew needed `up.Lock()` to remove the placeholder
+before unlocking it: neither call could ever return.  The configuration — a write-locked
+placeholder of a failed constructor, still in the map — is reachable (below); repaired `Range`
+skips entries whose lock it cannot get at once, is a single region and never blocks, and no
+region needs a lock that is held across a region boundary (`Props.progress`). -/
+theorem range_old_code_deadlock_configuration :
+    (runLabels G.init [.lnLookup 0, .ctorErr 0]).map
+      (fun s => (cleanRun G.init [.lnLookup 0, .ctorErr 0], inPool s 0, (s.ent 0).wlocked, (s.ent 0).failing))
+      = some (true, true, true, 1) := by
+  decide
 
-theorem references_full_fails :
-    ∃ ls s e, cleanRun G.init ls = true ∧ runLabels G.init ls = some s
-      ∧ gstep s (.refs2 e) ≠ none ∧ refs2Ret s e = 0 := by
-  have h : (runLabels G.init refsStaleRun).map
-      (fun s => ((gstep s (.refs2 0)).isSome, refs2Ret s 0)) = some (true, 0) := by decide
-  obtain ⟨s, hr, hf⟩ := run_witness h
-  refine ⟨refsStaleRun, s, 0, by decide, hr, ?_, congrArg (·.2) hf⟩
-  have : (gstep s (.refs2 0)).isSome = true := congrArg (·.1) hf
-  intro hn; rw [hn] at this; cases this
+/-! ### observation: the next value of a key may be constructed before the previous one is destructed
 
-/-! ### the constructor of the next value can run before the destructor of the previous one
-
-FULL STATEMENT (false, strict reading of "at most one live value at a time"): per key at most
-one value is constructed-and-not-yet-destructed.  True is `one_live_value`: at most one value
-is in the map / held.  The destructor runs outside both locks, after the entry left the map, so
-a new constructor for the same key may complete first (for a listener: the new socket is
-opened before the old one is closed).
-
-A: LoadOrStore(0), Delete(0) up to the removal; B: LoadOrNew(0) constructs value 2 while value
-1 still awaits its destructor. -/
+The property asks that the destructor runs exactly once AFTER the last holder released the value
+and never earlier; it does not ask that it runs before the key is used again.  The destructor
+runs outside both locks, after the entry left the map, so a new constructor for the same key can
+complete first (for a listener: the new socket is opened before the old one is closed).  "At most
+one live value" is `Props.one_live_value`: at most one value per key is in the map or held. -/
 def overlapRun : List Label := [.lsLookup 0, .del1 0 (some 0), .lnLookup 0, .ctorOk 1]
 
-theorem one_undestructed_value_full_fails :
-    ∃ ls s e e', cleanRun G.init ls = true ∧ runLabels G.init ls = some s ∧ e ≠ e'
-      ∧ (s.ent e).key = (s.ent e').key
-      ∧ (s.ent e).value.isSome = true ∧ (s.ent e).destructed = 0
-      ∧ (s.ent e').value.isSome = true ∧ (s.ent e').destructed = 0 := by
-  have h : (runLabels G.init overlapRun).map
-      (fun s => ((s.ent 0).key, (s.ent 1).key, (s.ent 0).value.isSome, (s.ent 0).destructed,
-                 (s.ent 1).value.isSome, (s.ent 1).destructed)) = some (0, 0, true, 0, true, 0) := by decide
-  obtain ⟨s, hr, hf⟩ := run_witness h
-  refine ⟨overlapRun, s, 0, 1, by decide, hr, by decide, ?_, congrArg (·.2.2.1) hf, congrArg (·.2.2.2.1) hf,
-    congrArg (·.2.2.2.2.1) hf, congrArg (·.2.2.2.2.2) hf⟩
-  have a : (s.ent 0).key = 0 := congrArg (·.1) hf
-  have b : (s.ent 1).key = 0 := congrArg (·.2.1) hf
-  rw [a, b]
+theorem next_constructor_may_precede_previous_destructor :
+    (runLabels G.init overlapRun).map
+      (fun s => (cleanRun G.init overlapRun && (s.ent 0).key == (s.ent 1).key, (s.ent 0).value, (s.ent 0).destructed,
+                 (s.ent 0).holders, (s.ent 1).value, (s.ent 1).holders))
+      = some (true, some 1, 0, 0, some 2, 1) := by
+  decide
 
-/-! ### Range concurrent with a failing constructor deadlocks
+/-! ### the regression lines are these schedules (thread-level runs, kernel-evaluated) -/
 
-(Not a clause of the property as worded — linearizability is a safety property — but a schedule
-of the quantified operations after which two calls can never return.)
-
-`Stuck s e`: a `Range` call holds the pool read lock and the placeholder `e`, whose constructor
-failed, is still write-locked in the map.  `Range` needs `e`'s lock to finish; the failing
-`LoadOrNew` needs the pool write lock to remove `e` and only then unlocks it. -/
-def Stuck (s : G) (e : Nat) : Prop :=
-  0 < s.rangers ∧ e < s.next ∧ 0 < (s.ent e).failing ∧ (s.ent e).ctor = 0
-    ∧ (s.ent e).wlocked = true ∧ inPool s e = true
-
-theorem rangeFree_false_of_stuck {s : G} {e : Nat} (h : Stuck s e) : rangeFree s = false := by
-  obtain ⟨_, he, _, _, hw, hm⟩ := h
-  unfold rangeFree
-  rw [Bool.eq_false_iff]
-  intro hall
-  rw [List.all_eq_true] at hall
-  have := hall e (List.mem_range.mpr he)
-  simp [hw, hm] at this
-
-/-- in a stuck state neither call can take its next region … -/
-theorem stuck_disabled {s : G} {e : Nat} (h : Stuck s e) :
-    gstep s .rangeEnd = none ∧ gstep s (.lnFailDel e) = none := by
-  have hr := rangeFree_false_of_stuck h
-  obtain ⟨h0, _, _, _, _, _⟩ := h
-  constructor
-  · simp [gstep, hr]
-  · simp only [gstep]
-    have : ¬ s.rangers = 0 := by omega
-    simp [this]
-
-theorem stuck_updEnt {s : G} {e e' : Nat} {f : Entry → Entry} (h : Stuck s e)
-    (hk : (f (s.ent e')).key = (s.ent e').key)
-    (hf : e' = e → (s.ent e).failing ≤ (f (s.ent e)).failing ∧ (f (s.ent e)).ctor = 0 ∧ (f (s.ent e)).wlocked = true) :
-    Stuck (updEnt s e' f) e := by
-  obtain ⟨h0, he, hfl, hc, hw, hm⟩ := h
-  refine ⟨h0, he, ?_, ?_, ?_, ?_⟩
-  all_goals first
-    | (rw [inPool_updEnt s e' f hk e]; exact hm)
-    | (by_cases hee : e' = e
-       · subst hee
-         obtain ⟨a, b, c⟩ := hf rfl
-         simp only [updEnt, if_true]
-         first | omega | assumption
-       · have : (updEnt s e' f).ent e = s.ent e := by simp [updEnt, Ne.symm hee]
-         rw [this]; assumption)
-
-/-- … for ever: every region any goroutine can still execute leads to a stuck state again, so
-    the `Range` call and the failing `LoadOrNew` call never return -/
-theorem stuck_forever {s s' : G} {e : Nat} {l : Label} (h : Stuck s e) (hs : gstep s l = some s') :
-    Stuck s' e := by
-  have hr := rangeFree_false_of_stuck h
-  have h0 : ¬ s.rangers = 0 := by have := h.1; omega
-  have hc := h.2.2.2.1
-  have hw := h.2.2.2.2.1
-  cases l with
-  | lnLookup k => simp [gstep, h0] at hs
-  | lsLookup k => simp [gstep, h0] at hs
-  | lnFailDel e' => simp [gstep, h0] at hs
-  | del1 k ho => cases ho <;> simp [gstep, h0] at hs
-  | rangeEnd => simp [gstep, hr] at hs
-  | rangeBegin =>
-    simp only [gstep] at hs; cases hs
-    obtain ⟨a, b, c, d, e1, f1⟩ := h
-    exact ⟨Nat.succ_pos _, b, c, d, e1, f1⟩
-  | ctorOk e' =>
-    simp only [gstep] at hs
-    split at hs
-    · rename_i hg; cases hs
-      have hb : ∀ x, Stuck x e → Stuck (bumpVal x) e := fun _ hx => hx
-      exact hb _ (stuck_updEnt h rfl (by intro hee; subst hee; omega))
-    · cases hs
-  | ctorErr e' =>
-    simp only [gstep] at hs
-    split at hs
-    · rename_i hg; cases hs
-      exact stuck_updEnt h rfl (by intro hee; subst hee; omega)
-    · cases hs
-  | lnRead e' =>
-    simp only [gstep] at hs
-    split at hs
-    · rename_i hg
-      have hne : e' = e → False := by intro hee; subst hee; rw [hw] at hg; exact absurd hg.2.2 (by simp)
-      split at hs <;> cases hs <;> exact stuck_updEnt h rfl (fun hee => (hne hee).elim)
-    · cases hs
-  | lsRead e' v =>
-    simp only [gstep] at hs
-    split at hs
-    · rename_i hg
-      have hne : e' = e → False := by intro hee; subst hee; rw [hw] at hg; exact absurd hg.2.2 (by simp)
-      split at hs <;> cases hs <;> exact stuck_updEnt h rfl (fun hee => (hne hee).elim)
-    · cases hs
-  | del2 e' =>
-    simp only [gstep] at hs
-    split at hs
-    · rename_i hg
-      have hne : e' = e → False := by intro hee; subst hee; rw [hw] at hg; exact absurd hg.2.2 (by simp)
-      split at hs <;> cases hs <;> exact stuck_updEnt h rfl (fun hee => (hne hee).elim)
-    · cases hs
-  | del3 e' =>
-    simp only [gstep] at hs
-    split at hs
-    · cases hs
-      exact stuck_updEnt h rfl (fun _ => ⟨Nat.le_refl _, hc, hw⟩)
-    · cases hs
-  | refs1 k =>
-    simp only [gstep] at hs
-    split at hs
-    · cases hs
-      exact stuck_updEnt h rfl (fun _ => ⟨Nat.le_refl _, hc, hw⟩)
-    · cases hs; exact h
-  | refs2 e' =>
-    simp only [gstep] at hs
-    split at hs
-    · cases hs
-      exact stuck_updEnt h rfl (fun _ => ⟨Nat.le_refl _, hc, hw⟩)
-    · cases hs
-
-/-- … and a stuck state is reachable -/
-def deadlockRun : List Label := [.lnLookup 0, .ctorErr 0, .rangeBegin]
-
-theorem range_failing_ctor_deadlock_reachable :
-    ∃ s, cleanRun G.init deadlockRun = true ∧ runLabels G.init deadlockRun = some s ∧ Stuck s 0 := by
-  have h : (runLabels G.init deadlockRun).map
-      (fun s => (decide (0 < s.rangers), decide (0 < s.next), decide (0 < (s.ent 0).failing), (s.ent 0).ctor,
-                 (s.ent 0).wlocked, inPool s 0)) = some (true, true, true, 0, true, true) := by decide
-  obtain ⟨s, hr, hf⟩ := run_witness h
-  refine ⟨s, by decide, hr, ?_⟩
-  exact ⟨of_decide_eq_true (congrArg (·.1) hf), of_decide_eq_true (congrArg (·.2.1) hf),
-    of_decide_eq_true (congrArg (·.2.2.1) hf), congrArg (·.2.2.2.1) hf, congrArg (·.2.2.2.2.1) hf,
-    congrArg (·.2.2.2.2.2) hf⟩
-
-/-! ### the exported protocol lines are these schedules (thread-level runs, kernel-evaluated) -/
-
--- F12 line `sched 1 N0f;S0,d0;N0o 0100122111`: C (thread 2) still holds entry 1, whose value was destructed
+-- `sched 1 N0f;S0,d0;N0o 0100122111` on the repaired code: B starts over and shares C's value
 example : let y := runSched 1 [[.ln 0 false], [.ls 0, .cdel 0], [.ln 0 true]] [0, 1, 0, 0, 1, 2, 2, 1, 1, 1]
-    (y.clean, (y.g.ent 1).holders, (y.g.ent 1).destructed) = (false, 1, 1) := by decide
--- `sched 1 S0,d0;R0 0101`: the fourth event is thread 1's `Q0`
-example : ((runSched 1 [[.ls 0, .cdel 0], [.refs 0]] [0, 1, 0, 1]).out.reverse.drop 3).head? = some "1:Q0/-" := by decide
--- `sched 1 S0,d0;N0o 0011`
-example : let y := runSched 1 [[.ls 0, .cdel 0], [.ln 0 true]] [0, 0, 1, 1]
-    (y.clean, y.g.pool 0, (y.g.ent 0).value, (y.g.ent 1).value) = (true, some 1, some 1, some 2) := by decide
--- `sched 1 N0f;G 001`: nothing is enabled, two calls unfinished
+    (y.clean, (y.g.ent 1).holders, (y.g.ent 1).destructed, allFinished y.threads) = (true, 1, 0, true) := by decide
+-- `sched 1 S0,d0;R0 0101`: References is one region
+example : ((runSched 1 [[.ls 0, .cdel 0], [.refs 0]] [0, 1, 0, 1]).out.reverse.drop 1).head? = some "1:Q1/1" := by decide
+-- `sched 1 N0f;G 001`: Range skips the placeholder and returns; everything finishes
 example : let y := runSched 1 [[.ln 0 false], [.range]] [0, 0, 1]
-    (allFinished y.threads, (firstEnabled 1 y.g y.threads 0).isSome) = (false, false) := by decide
+    (allFinished y.threads, (y.out.reverse.drop 2).head?) = (true, some "1:G_/1") := by decide
 
 end CaddyModel.C04
